@@ -109,7 +109,7 @@ func (ctx *Ctx) GenVC(fc *FuncContract) (res *FuncResult) {
 						defer func() { recover() }()
 						vc.leafSorts(t, leaf)
 					}()
-					for s := range leaf {
+					for _, s := range sortedKeys(leaf) {
 						vc.heapReg[s] = true
 					}
 				}
@@ -289,7 +289,7 @@ func (ctx *Ctx) modifiesAllowed(vc *VC, fr *Frame, fc *FuncContract) (map[Sort][
 			size = Mul(count, size)
 		}
 		cond := And(Eq(Rid(q), Rid(addr)), Le(Roff(addr), Roff(q)), Lt(Roff(q), Add(Roff(addr), size)))
-		for s := range leaf {
+		for _, s := range sortedKeys(leaf) {
 			per[s] = append(per[s], cond)
 		}
 	}
@@ -320,7 +320,7 @@ func (ctx *Ctx) frameObligation(vc *VC, fr *Frame, fc *FuncContract, exit *State
 		return
 	}
 	var sl []string
-	for s := range vc.heapReg {
+	for _, s := range sortedKeys(vc.heapReg) {
 		sl = append(sl, string(s))
 	}
 	sort.Strings(sl)
@@ -344,7 +344,7 @@ func (ctx *Ctx) frameObligation(vc *VC, fr *Frame, fc *FuncContract, exit *State
 	}
 	if !fc.ModifiesMaps {
 		var mk []string
-		for k := range exit.maps {
+		for _, k := range sortedKeys(exit.maps) {
 			mk = append(mk, k)
 		}
 		sort.Strings(mk)
@@ -371,7 +371,7 @@ func (ctx *Ctx) frameObligation(vc *VC, fr *Frame, fc *FuncContract, exit *State
 		assigned[fc.PkgPath+"::"+gs.Var] = true
 	}
 	var gk []string
-	for k := range exit.ghost {
+	for _, k := range sortedKeys(exit.ghost) {
 		gk = append(gk, k)
 	}
 	sort.Strings(gk)
